@@ -290,8 +290,12 @@ def _(p, ir, st_, ex, k1, k2, k3, ctx):
         return None
     dims = _dim_strs(s.node)
     d = k2 % len(dims)
-    var = k3 % 6
+    var = k3 % 8
     size, off, fold = dims[d], "0", False
+    if var == 6:
+        size, off = f"({dims[d]}) / 2", "0"
+    elif var == 7:
+        size, off = f"({dims[d]}) / 2", f"({dims[d]}) / 2"
     if var == 1:
         size, off = f"{dims[d]} + 1", "0"
     elif var == 2:
